@@ -163,6 +163,22 @@ def finish(res: Result, *, tier: str, seed: int, t0: float, checker_cmd: str, as
         lines.append(f'VIOLATION property={prop} replay={path} obligation={name}{suffix}')
         nviol += 1
         exit_code = 1
+    # an obligation the solver could not decide: a natively reproduced failing input still is a violation (never the other way round)
+    still_undecided = []
+    for ui, name in enumerate(undecided):
+        confirmed, path = None, None
+        if ui < 2 and nviol == 0:
+            try:
+                confirmed, path = replay(name, res.obligations[name])
+            except Exception:
+                confirmed = None
+        if confirmed:
+            lines.append(f'VIOLATION property={prop} replay={path} obligation={name} (undecided by the solver; native replay found the failing input)')
+            nviol += 1
+            exit_code = 1
+        else:
+            still_undecided.append(name)
+    undecided = still_undecided
     for name, kf, e in known_hits:
         try:
             confirmed, _p = replay(name, e)
